@@ -1,25 +1,15 @@
 #!/bin/sh
 # tools/baseline.sh — the repository's own suite with no verification define (there are no hooks):
-# configure + build /repo in a scratch directory, run ctest, remove the directory.
+# configure + build /repo in a scratch directory, run ctest exactly as the baseline does, remove the directory.
+# Expected (BASELINE.json): everything passes except the two "self binary" cases of Nitro.dl_test.
 set -e
 D=$(mktemp -d /tmp/nitro-baseline.XXXXXX)
 trap 'rm -rf "$D"' EXIT
 cmake -G Ninja -B "$D" -S /repo >/dev/null
 cmake --build "$D" >/dev/null
-# dl_test's two "self binary" cases fail at the pinned baseline as well (BASELINE.json always_fail)
-ctest --test-dir "$D" -j8 --timeout 900 --output-junit "$D/junit.xml" || true
-python3 - "$D" <<'PY'
-import sys, glob, subprocess, re
-d = sys.argv[1]
-fails = 0
-for t in sorted(glob.glob(d + "/tests/Nitro.*_test")):
-    p = subprocess.run([t], stdout=subprocess.PIPE, stderr=subprocess.STDOUT, cwd=d + "/tests")
-    out = p.stdout.decode("utf-8", "replace")
-    m = re.search(r"test cases:\s*(\d+)\s*\|\s*(\d+) passed\s*\|\s*(\d+) failed", out)
-    name = t.split("/")[-1]
-    if p.returncode != 0 and name != "Nitro.dl_test":
-        print("FAIL", name); fails += 1
-    else:
-        print("ok  ", name, "(baseline: 2 self-binary cases of dl_test fail)" if name == "Nitro.dl_test" and p.returncode else "")
-sys.exit(1 if fails else 0)
-PY
+ctest --test-dir "$D" -j8 --timeout 900 --output-junit "$D/junit.xml" > "$D/ctest.out" 2>&1 || true
+tail -8 "$D/ctest.out"
+FAILED=$(grep -E "^\s+[0-9]+ - .*\(Failed\)" "$D/ctest.out" | sed -E 's/^\s+[0-9]+ - ([^ ]+).*/\1/' | sort | tr '\n' ' ')
+echo "failed ctest entries: $FAILED"
+[ "$FAILED" = "Nitro.dl_test " ] || { echo "BASELINE MISMATCH"; exit 1; }
+echo "baseline ok (Nitro.dl_test is the only failing ctest entry, as in BASELINE.json: its two self-binary cases)"
